@@ -4,6 +4,8 @@ import (
 	"context"
 	stded "crypto/ed25519"
 	"encoding/binary"
+	"encoding/json"
+	"errors"
 	"fmt"
 	"net/http"
 	"sort"
@@ -180,10 +182,80 @@ func (e *c30Env) execAPI(req *http.Request, actor int, raw [][]byte) string {
 	if err := e.srv.ExecuteActions(req, &jsonrpc.ExecuteActionArgs{Actor: e.addrs[actor], Actions: raw}, &reply); err != nil {
 		return "rpc-err"
 	}
-	if reply.Error != "" {
-		return "fail " + c30Outs(reply.Outputs) + " " + c30Err(reply.Error)
+	// the reply as a client sees it: through its JSON encoding
+	var wire jsonrpc.ExecuteActionReply
+	if b, err := json.Marshal(&reply); err != nil || json.Unmarshal(b, &wire) != nil {
+		return "json-err"
 	}
-	return "ok " + c30Outs(reply.Outputs)
+	if wire.Error != "" {
+		return "fail " + c30Outs(wire.Outputs) + " " + c30Err(wire.Error)
+	}
+	return "ok " + c30Outs(wire.Outputs)
+}
+
+// c30Explained: the difference between the API reply and the on-chain result is exactly the one
+// the known finding describes — only output fields derived from the sponsor's (= actor's) balance
+// differ, by exactly the fee, or the transaction stops with "invalid balance" at the first action
+// the fee-reduced sponsor balance cannot pay.
+func c30Explained(ex, out string, fee, bal0 uint64, actor int, tos []int, vals []uint64) bool {
+	parse := func(s string) (ok bool, outs [][2]uint64, errc string, good bool) {
+		f := strings.Fields(s)
+		if len(f) == 0 {
+			return
+		}
+		ok = f[0] == "ok"
+		rest := f[1:]
+		if !ok {
+			if f[0] != "fail" || len(rest) == 0 {
+				return
+			}
+			errc, rest = rest[len(rest)-1], rest[:len(rest)-1]
+		}
+		for _, o := range rest {
+			if o == "-" {
+				continue
+			}
+			p := strings.Split(o, ":")
+			if len(p) != 2 {
+				return
+			}
+			a, e1 := strconv.ParseUint(p[0], 10, 64)
+			b, e2 := strconv.ParseUint(p[1], 10, 64)
+			if e1 != nil || e2 != nil {
+				return
+			}
+			outs = append(outs, [2]uint64{a, b})
+		}
+		return ok, outs, errc, true
+	}
+	okA, oa, errA, g1 := parse(ex)
+	okC, oc, errC, g2 := parse(out)
+	if !g1 || !g2 || fee == 0 || len(oc) > len(oa) {
+		return false
+	}
+	bal := bal0 // the actor's balance as the API sees it before action i
+	for i := range oc {
+		if oa[i][0]-oc[i][0] != fee || oa[i][0] < oc[i][0] {
+			return false
+		}
+		if tos[i] == actor {
+			if oa[i][1]-oc[i][1] != fee {
+				return false
+			}
+			bal = oa[i][1]
+		} else {
+			if oa[i][1] != oc[i][1] {
+				return false
+			}
+			bal = oa[i][0]
+		}
+	}
+	if okA == okC && len(oa) == len(oc) {
+		return errA == errC && len(oc) > 0
+	}
+	// the transaction stopped earlier: at action j the fee-reduced balance is short
+	j := len(oc)
+	return !okC && errC == "err2" && j < len(vals) && vals[j] > 0 && bal >= vals[j] && bal-fee < vals[j]
 }
 
 const c30Time = int64(1_000_000)
@@ -214,6 +286,9 @@ func (e *c30Env) runTx(actor int, price uint64, acts []chain.Action) (out string
 	ts := tstate.New(1)
 	tsv := ts.NewView(sk, state.ImmutableStorage(e.vm.store), len(sk))
 	if err := tx.PreExecute(ctx, fm, bh, e.vm.rules, tsv, c30Time); err != nil {
+		if errors.Is(err, chain.ErrTooManyActions) {
+			return "too-many", fee, nil
+		}
 		return "unpayable", fee, nil
 	}
 	res, err = tx.Execute(ctx, fm, bh, e.vm.rules, tsv, c30Time)
@@ -233,6 +308,9 @@ func c30Generate(r *verifh.Run) []string {
 		if r.RNG.Chance(5) {
 			n = 16
 		}
+		if r.RNG.Chance(2) {
+			n = 17 + r.RNG.Intn(3) // above MaxActionsPerTx
+		}
 		var p []string
 		for i := 0; i < n; i++ {
 			v := uint64(r.RNG.Intn(12))
@@ -251,6 +329,8 @@ func c30Generate(r *verifh.Run) []string {
 		return strings.Join(p, " ")
 	}
 	// corpus first: the strict-reading witness (actor = sponsor pays a fee, output reports its balance)
+	seventeen := strings.TrimSpace(strings.Repeat("1 1 ", 17))
+	lines = append(lines, "reset 100 0 0 0 0 0", "exec 0 "+seventeen, "sim 0 "+seventeen, "tx 0 0 0 "+seventeen)
 	lines = append(lines, "reset 100 0 0 0 0 0", "exec 0 1 10", "sim 0 1 10", "tx 0 1 0 1 10", "tx 0 0 0 1 10",
 		"reset 10 0 0 0 0 0", "exec 0 1 10", "tx 0 1 0 1 10", "tx 0 0 0 1 10", "exec 0 1 5 1 5 1 1", "tx 0 0 0 1 5 1 5 1 1")
 	for i := 0; i < r.N(1500, 40000); i++ {
@@ -286,6 +366,7 @@ func TestVerifC30(t *testing.T) {
 	r := verifh.Start("C30")
 	defer r.Finish()
 	e := c30NewEnv()
+	r.Fact("maxActionsPerTx", e.vm.rules.GetMaxActionsPerTx())
 	lines := r.ReplayLines()
 	if lines == nil {
 		lines = c30Generate(r)
@@ -352,6 +433,20 @@ func TestVerifC30(t *testing.T) {
 				}
 				continue
 			}
+			if b, err := json.Marshal(&reply); err != nil {
+				r.Emit(l, "json-err")
+				continue
+			} else {
+				var wire jsonrpc.SimulateActionsReply
+				if err := json.Unmarshal(b, &wire); err != nil {
+					r.Emit(l, "json-err")
+					continue
+				}
+				reply = wire
+			}
+			if len(acts) > int(e.vm.rules.GetMaxActionsPerTx()) {
+				r.Count("sim-above-action-limit-accepted")
+			}
 			var p, outs []string
 			for _, ar := range reply.ActionResults {
 				p = append(p, c30Out(ar.Output)+"/"+e.keysStr(ar.StateKeys))
@@ -361,7 +456,10 @@ func TestVerifC30(t *testing.T) {
 			r.Count("sim:ok")
 			r.Distinct("sim " + sig + "|" + fmt.Sprint(e.vm.store))
 			// oracle: simulation outputs = execution outputs
-			if ex, ok := lastExec[sig]; ok && ex != "ok "+strings.Join(outs, " ") {
+			if ex, ok := lastExec[sig]; ok && ex == "rpc-err" && len(acts) > int(e.vm.rules.GetMaxActionsPerTx()) {
+				// above the action limit: ExecuteActions refuses, SimulateActions has no limit
+				// (outside the property's quantifier; modelled, see simulate_above_limit)
+			} else if ok && ex != "ok "+strings.Join(outs, " ") {
 				r.Violation("simulate-differs-from-execute", "%s: exec=%q sim=%q", l, ex, strings.Join(outs, " "))
 			}
 			// oracle: the reported key sets are sufficient — each action, run in a view scoped to
@@ -403,7 +501,10 @@ func TestVerifC30(t *testing.T) {
 			r.Count("tx:" + strings.Fields(out)[0])
 			sig := f[1] + " " + strings.Join(f[4:], " ")
 			ex, have := lastExec[sig]
-			if !have || out == "unpayable" {
+			if !have || out == "unpayable" || out == "too-many" || ex == "rpc-err" {
+				if (out == "too-many") != (have && ex == "rpc-err") && have {
+					r.Violation("action-limit-differs-between-api-and-chain", "API %q on-chain %q for %s", ex, out, l)
+				}
 				continue
 			}
 			r.Distinct("tx " + sig + "|" + f[3] + "|" + fmt.Sprint(e.vm.store))
@@ -426,10 +527,21 @@ func TestVerifC30(t *testing.T) {
 			} else if ex != out {
 				// classify: Transfer's output reports the sender (= sponsor) balance, which on-chain
 				// is read after the fee was deducted
-				if fee > 0 {
+				var tos []int
+				var vals []uint64
+				for i := 4; i+1 < len(f); i += 2 {
+					t, _ := strconv.Atoi(f[i])
+					v, _ := strconv.ParseUint(f[i+1], 10, 64)
+					tos, vals = append(tos, t), append(vals, v)
+				}
+				var bal0 uint64
+				if had {
+					bal0 = binary.BigEndian.Uint64(old)
+				}
+				if c30Explained(ex, out, fee, bal0, actor, tos, vals) {
 					r.Violation("output-reports-sponsor-balance-after-fee", "fee=%d: API %q on-chain %q for %s", fee, ex, out, l)
 				} else {
-					r.Violation("api-differs-from-onchain", "fee=0: API %q on-chain %q for %s", ex, out, l)
+					r.Violation("api-differs-from-onchain-unexplained", "fee=%d: API %q on-chain %q for %s", fee, ex, out, l)
 				}
 			}
 		default:
